@@ -51,6 +51,7 @@ theorem applyAct_inv (s : State) (fh fw : List Nat) (a : Act) (h : s.Inv) (hR : 
   | setShallow q => exact applyAct_inv_setShallow s fh fw q h
   | upgradeField k => exact applyAct_inv_upgradeField s fh fw k h
   | cloneField k => exact applyAct_inv_cloneField s fh fw k h
+  | downgradeField k => exact applyAct_inv_downgradeField s fh fw k h
 
 theorem applyOp_inv (s : State) (op : Op) (h : s.Inv) (hR : s.InvR) : (applyOp s op).Inv := by
   cases op with
